@@ -104,7 +104,13 @@ void h_pw_null_count(void) {
   /* arbitrary earlier page: any counters, any statistics */
   __CPROVER_assume(w->max_def_level >= 0 && w->max_def_level <= 3 && w->max_rep_level == 0);
   __CPROVER_assume(w->type == CARQUET_PHYSICAL_BYTE_ARRAY || w->type == CARQUET_PHYSICAL_INT32 || w->type == CARQUET_PHYSICAL_BOOLEAN);
+  /* frame of reset: configuration and options are per writer, not per page */
+  bool crc0 = w->write_crc, st0 = w->write_statistics; carquet_physical_type_t ty0 = w->type; carquet_compression_t co0 = w->compression;
+  carquet_encoding_t en0 = w->encoding; int16_t md0 = w->max_def_level, mr0 = w->max_rep_level; int32_t tl0 = w->type_length;
   carquet_page_writer_reset(w);
+  __CPROVER_assert(w->write_crc == crc0 && w->write_statistics == st0, "C14/C16: reset keeps the writer's options (write_crc, write_statistics): every page of a chunk is written the same way");
+  __CPROVER_assert(w->type == ty0 && w->compression == co0 && w->encoding == en0 && w->max_def_level == md0 && w->max_rep_level == mr0 && w->type_length == tl0,
+                   "reset keeps the column configuration");
   __CPROVER_assert(w->num_nulls == 0 && w->num_values == 0 && !w->has_min_max, "C16: reset starts a page with zero rows, zero nulls and no bounds");
   __CPROVER_assert(carquet_page_writer_null_count(w) == 0, "C16: null_count of a fresh page is 0");
   int16_t d1[4], d2[4];
